@@ -166,6 +166,21 @@ def validated_return(rep, prog):
     inc = strip(loop.get("inc") or {})
     inc_ok = inc.get("k") == "UnaryOperator" and inc.get("op") == "++" and strip(inc["c"][0]).get("k") == "DeclRefExpr" and strip(inc["c"][0])["ref"]["did"] == counter
     idiom = N is not None and N >= 1 and last_throw is not None and not counter_written and inc_ok
+    # a handler that jumps (continue / break / return) goes round the exhaustion test that follows the try block: the last
+    # attempt then falls out of the loop and the function returns a cell that was never validated (or a null pointer)
+    jumps = []
+    for t_ in [t for t in walk(body) if t.get("k") == "CXXTryStmt"]:
+        for h in t_.get("handlers", []):
+            for x in walk(h.get("body") or {}, into_lambdas=False):
+                if x.get("k") in ("ContinueStmt", "ReturnStmt", "GotoStmt") or (x.get("k") == "BreakStmt" and fi.enclosing(x, ("SwitchStmt", "ForStmt", "WhileStmt", "DoStmt", "CXXForRangeStmt")) is loop):
+                    jumps.append((x, h))
+    if idiom and jumps and any(s_ is not None for s_ in stmts) and stmts and stmts[-1].get("k") == "IfStmt":
+        x, h = jumps[0]
+        rep.violation("C13.retry-bound", prog, fn, x, "a handler of the retry loop skips the exhaustion test",
+                      "the handler catch(%s) of the retry loop of triangulate_surface leaves with '%s' (line %s) and so goes round the test 'if(i == N-1) throw intialization_exception' that follows the try block: when the last attempt fails with that exception the loop simply ends and the function returns '%s' - a null pointer or a cell whose validation did not complete - instead of reporting the failure" % (h.get("type"), x.get("k").replace("Stmt", "").lower(), x.get("l"), "c0"))
+        idiom = False
+        last_throw = None
+        return
     if idiom and last_throw.get("thrown_t") == "intialization_exception":
         rep.ok("C13.retry-bound", prog, fn, loop, "retry loop bounded by the literal %d; iteration %d ends with 'throw intialization_exception' unless the try block reached its break" % (N, N - 1))
     else:
